@@ -22,6 +22,7 @@ import (
 	"sort"
 	"strconv"
 	"strings"
+	"syscall"
 	"time"
 )
 
@@ -118,26 +119,64 @@ func main() {
 		fs := flag.NewFlagSet("run", flag.ExitOnError)
 		oracleF := fs.String("oracle", "", "file for oracle failures (lineno<TAB>message)")
 		statsF := fs.String("stats", "", "file for tag counts (json)")
+		resumeF := fs.String("resume", "", "internal: file with the remaining request lines after a timed-out request")
+		offset := fs.Int("offset", 0, "internal: number of request lines already answered")
 		fs.Parse(os.Args[2:])
-		var ow *bufio.Writer
-		if *oracleF != "" {
-			f, err := os.Create(*oracleF)
+		// read every request first: after a request that does not return, the process re-executes itself on the
+		// remaining lines (a goroutine that never returns cannot be killed and would starve or exhaust the rest)
+		var in *os.File = os.Stdin
+		if *resumeF != "" {
+			f, err := os.Open(*resumeF)
 			if err != nil {
 				panic(err)
 			}
-			defer f.Close()
+			in = f
+		}
+		var lines []string
+		sc := bufio.NewScanner(in)
+		sc.Buffer(make([]byte, 1<<20), 1<<28)
+		for sc.Scan() {
+			lines = append(lines, sc.Text())
+		}
+		if *resumeF != "" {
+			in.Close()
+			os.Remove(*resumeF)
+		}
+		var ow *bufio.Writer
+		var of *os.File
+		if *oracleF != "" {
+			flags := os.O_CREATE | os.O_WRONLY | os.O_TRUNC
+			if *resumeF != "" {
+				flags = os.O_CREATE | os.O_WRONLY | os.O_APPEND
+			}
+			f, err := os.OpenFile(*oracleF, flags, 0o644)
+			if err != nil {
+				panic(err)
+			}
+			of = f
 			ow = bufio.NewWriter(f)
-			defer ow.Flush()
 		}
 		stats := map[string]int{}
-		sc := bufio.NewScanner(os.Stdin)
-		sc.Buffer(make([]byte, 1<<20), 1<<28)
+		if *resumeF != "" && *statsF != "" {
+			if b, err := os.ReadFile(*statsF); err == nil {
+				json.Unmarshal(b, &stats)
+			}
+		}
 		w := bufio.NewWriterSize(os.Stdout, 1<<20)
-		defer w.Flush()
-		ln := 0
-		for sc.Scan() {
-			ln++
-			res := runOne(sc.Text())
+		finish := func() {
+			w.Flush()
+			if ow != nil {
+				ow.Flush()
+				of.Close()
+			}
+			if *statsF != "" {
+				b, _ := json.Marshal(stats)
+				os.WriteFile(*statsF, b, 0o644)
+			}
+		}
+		for k, line := range lines {
+			ln := *offset + k + 1
+			res := runOne(line)
 			w.WriteString(res.Out)
 			w.WriteByte('\n')
 			if res.Oracle != "" && ow != nil {
@@ -146,11 +185,36 @@ func main() {
 			for _, t := range res.Tags {
 				stats[t]++
 			}
+			if res.Out == "timeout" && k+1 < len(lines) {
+				tmp, err := os.CreateTemp("", "vh-resume-*.txt")
+				if err == nil {
+					bw := bufio.NewWriter(tmp)
+					for _, l := range lines[k+1:] {
+						bw.WriteString(l)
+						bw.WriteByte('\n')
+					}
+					bw.Flush()
+					tmp.Close()
+					finish()
+					self, _ := os.Executable()
+					args := []string{self, "run", "-resume", tmp.Name(), "-offset", strconv.Itoa(ln)}
+					if *oracleF != "" {
+						args = append(args, "-oracle", *oracleF)
+					}
+					if *statsF != "" {
+						args = append(args, "-stats", *statsF)
+					}
+					syscall.Exec(self, args, os.Environ())
+					// exec failed: fall through and keep going in this process
+					w = bufio.NewWriterSize(os.Stdout, 1<<20)
+					if *oracleF != "" {
+						of, _ = os.OpenFile(*oracleF, os.O_CREATE|os.O_WRONLY|os.O_APPEND, 0o644)
+						ow = bufio.NewWriter(of)
+					}
+				}
+			}
 		}
-		if *statsF != "" {
-			b, _ := json.Marshal(stats)
-			os.WriteFile(*statsF, b, 0o644)
-		}
+		finish()
 	case "gen-tables":
 		if len(os.Args) < 3 {
 			fmt.Fprintln(os.Stderr, "usage: vh gen-tables gendir")
